@@ -37,6 +37,31 @@ CHECKS = {
     text="PEval/PAdd/PMul/PDeriv/Taylor shift/ratio form/DivModOK are defined by recursion in TLA+ and compared exactly (cross-multiplied rationals) with the results of polynomial.py and the FractionContext copies in floating_point_algorithms.py, for every scheme, degree 0..40 and 499..501, forward/reverse, Laurent and ratio forms, zero patterns.",
     note="Trusted: TLC, BigInt. Sampled rational coefficients per enumerated case. Not covered: zeros_aberth, compensated_horner (floating point).",
     design="6/C16"),
+
+ "C03": dict(
+    category="model_checking",
+    technique="TLA+ spec Symmetry.tla (symmetry group on bit patterns, identities with their exclusion sets) with TLC: operator algebra and model families model-checked; TLC-enumerated input classes and random points evaluated through the package's own expanded algorithms; one event per orbit validated by Trace_Symmetry.tla",
+    text="Conj/Neg/RotI are sign-bit flips and component swaps on bit patterns; the identities of the statement (conjugation symmetry, oddness, evenness, asinh/atan/acosh as rotations of their parents, imag acos = -imag asin) are equalities of bit patterns decided by TLC for every recorded orbit {z, conj z, -z, -conj z} and the parent values. The implementation evaluated is the text printed by Expr.tostring for a synthetic NumPy-like target that expands every complex-operand kind through the package's own definitions (harness/evalalgo.py). U1 checks the algebra, closure of exclusion sets and three model families (honest, code-like, one-quadrant-wrong).",
+    note="Trusted: TLC, NumPy real primitives (incl. real hypot), the exec'd emitted text with array-capable max/min. Sampled: special lattice + ~2.4e4 orbits per (function, dtype) quick, ~1.8e5 thorough; not exhaustive. Known findings: 9 zero-component oddness classes (asin, asinh, atan, atanh; DESIGN F11), not repaired (copysign missing on three targets). Real atan/atanh have no algorithm.",
+    design="6/C03"),
+ "C04": dict(
+    category="model_checking",
+    technique="TLA+ spec FAIR.tla gives the IR an exact-rational and an IEEE semantics; TLC model-checks the relop folding tables extracted live from rewrite.py (MC_Relop) and enumerates terms (FATerms); every (term, rewritten term) pair from the real rewriter is evaluated by TLC under all assignments of a small domain (Trace_Rewrite.tla)",
+    text="U1: the three relational-operator tables are extracted from the working tree into a generated TLA+ module and every folded entry is checked against every pair of values of its classes on an order-preserving abstraction of the float lattice. U2/U3: TLC enumerates all terms with <= 2 operator nodes, all comparisons between 29 sign/finiteness class representatives, one template per rule left-hand side and sampled depth-5 terms; each is built in the real package for float, float32 and float64 symbols, rewritten (alone, twice, after the numpy/cpp expansion pass; fresh and shared contexts) under a time budget, projected back to a spec term, and TLC decides EvalQ(t) = EvalQ(t') exactly and EvalF(t) ~ EvalF(t') for every assignment. The semantics is the spec's only; no Python interpreter of the IR is involved.",
+    note="Trusted: TLC, BigInt/IEEE (self-tested against NumPy incl. division and sqrt). Leniencies: exact clause only when closed arithmetic sub-terms are small dyadics; numeric literal denotes its value in the like's type; target-declined kinds not judged. Not evaluated by the spec (counted, not judged): up/downcast, lists/items, complex kinds, transcendental kinds.",
+    design="6/C04"),
+ "C14": dict(
+    category="model_checking",
+    technique="TLA+ spec Ulp.tla (lattice distance from IEEE.tla ordinals, flushed lattice, ulp identities) with TLC: metric laws model-checked exhaustively on toy formats; TLC-enumerated operand shapes and exhaustive float16 chains driven through diff_ulp/ulp; events validated by Trace_Ulp.tla",
+    text="Dist(x,y) = |Ord(x) - Ord(y)|; TLC proves the statement's consequences (zero iff equal, symmetry, k-th neighbour, additivity along monotone chains across zero and binade edges, flush-mode collapse laws) from the definition on all pairs/triples of toy formats, so the trace clause is the single equation diff_ulp = Dist (plus complex max, flush-image consistency, ulp/nextafter identities). float16 neighbours, chains, ulp and collapse exhaustive; arbitrary pairs and float32/64 sampled + shapes.",
+    note="Trusted: TLC, BigInt/IEEE. Flush mode judged existentially against the code's own d(x,0) witness. Known finding: float64 ndarray path rounds distances above 2^53 when mixed with distances >= 2^63.",
+    design="6/C14"),
+ "C19": dict(
+    category="model_checking",
+    technique="TLA+ spec Samples.tla (postcondition of the sample generators on IEEE.tla ordinals, product layouts, transcription of the stepping) with TLC: transcription model-checked against the postcondition on a toy format for every argument tuple; TLC-enumerated argument shapes driven through real_samples and the product generators; returned arrays validated in chunks by Trace_Samples.tla",
+    text="Each phrase of the statement is a clause (no error, dtype, strictly increasing, within adjusted bounds, contains bounds/zero/infinities/next-to-largest when requested, no subnormal/NaN unless requested, ULP-uniform up to one unit, Cartesian products) evaluated by TLC on the returned arrays (up to 1e6 elements, chunked with spec-computed chunk summaries). 9744 TLC-enumerated argument shapes (bounds shape x flags x size class x dtype).",
+    note="Trusted: TLC, BigInt/IEEE, NumPy bit views, transport of chunk summaries (re-linked by the spec). Leniencies L1-L7 in Samples.tla (subnormal bound moved either way, unique=False order waived on the default path, huge required only for size >= 10...). Products checked at all cells when <= 3000, else sampled cells + corners.",
+    design="6/C19"),
 }
 NA_REASON = "not built yet in this round (see DESIGN.md section 10 build order); no check is registered, nothing is claimed"
 
